@@ -26,6 +26,13 @@ static ZSTD_DStream *ZSTD_createDStream(void)
 }
 static size_t ZSTD_freeCStream(ZSTD_CStream *c) { if (c) { toy_enc_free(&c->e); free(c); } return 0; }
 static size_t ZSTD_freeDStream(ZSTD_DStream *d) { free(d); return 0; }
+/* decoder resource parameters: the toy codec has no window, the calls are accepted and ignored (their effect on the real
+   library is measured by gen_limits.c and judged by the `limits` leg) */
+typedef ZSTD_DStream ZSTD_DCtx;
+typedef enum { ZSTD_d_windowLogMax = 100 } ZSTD_dParameter;
+#define ZSTD_WINDOWLOG_LIMIT_DEFAULT 27
+static size_t ZSTD_DCtx_setParameter(ZSTD_DCtx *d, ZSTD_dParameter p, int v) { (void)d; (void)p; (void)v; return 0; }
+static size_t ZSTD_DCtx_setMaxWindowSize(ZSTD_DCtx *d, size_t n) { (void)d; (void)n; return 0; }
 static unsigned ZSTD_isError(size_t r) { return r > (size_t)-120; }
 
 static size_t toy_zstd_errcode(void)
